@@ -37,7 +37,11 @@ class StructureReference(Field):
                 f"{self._name}: Expected a dictionary or Structure; got {value}"
             )
         extracted_values = (
-            {k: v for (k, v) in value.__dict__.items() if k != "_instantiated"}
+            {
+                k: v
+                for (k, v) in value.__dict__.items()
+                if k not in ("_instantiated", "_none_fields", "_trust_supplied_values")
+            }
             if isinstance(value, (Structure,))
             else value
         )
